@@ -2,19 +2,14 @@
    vm/vm.go enoughPlasma, chain/account/plasma.go AddChainPlasma, plus the verifier's pow() step.
    Constants come from gen/Consts.v (dumped from /repo on every run). *)
 From ZV Require Import Prelude.
-From ZV.gen Require Import Consts.
+From ZV.gen Require Import Consts Pure.
 Open Scope Z_scope.
 
-Definition difficulty_to_plasma (d : Z) : Z :=
-  if d =? 0 then 0
-  else if MaxDifficultyForAccountBlock <? d then MaxPoWPlasmaForAccountBlock
-  else d / PoWDifficultyPerPlasma.
+(* Tier A: both functions are the go2coq translations of vm/plasma.go, regenerated on every run *)
+Definition difficulty_to_plasma (d : Z) : Z := DifficultyToPlasma d.
 
 (* amount is a big.Int (nil is passed as 0 by the callers' stores) *)
-Definition fused_to_plasma (amt : Z) : Z :=
-  if amt <=? 0 then 0
-  else if MaxFussedAmountForAccountBig <=? amt then MaxFusionPlasmaForAccount
-  else u64 ((big_uint64 amt / CostPerFusionUnit) * PlasmaPerFusionUnit).
+Definition fused_to_plasma (amt : Z) : Z := FussedAmountToPlasma amt.
 
 (* AvailablePlasma: None = the error that enoughPlasma turns into a panic (DealWithErr) *)
 Definition available (fused_amt committed uncommitted : Z) : option Z :=
